@@ -528,9 +528,11 @@ def multi_future(
             for f in children_futs:
                 try:
                     result_list.append(f.result())
-                except Exception as e:
+                except (Exception, asyncio.CancelledError) as e:
                     if future.done():
-                        if not isinstance(e, quiet_exceptions):
+                        if not isinstance(
+                            e, (asyncio.CancelledError, quiet_exceptions)  # type: ignore
+                        ):
                             app_log.error(
                                 "Multiple exceptions in yield list", exc_info=True
                             )
